@@ -16,7 +16,8 @@ pub struct FrameSpec {
     pub dv: (usize, usize),
     /// configured subsampling
     pub ss: (u8, u8),
-    /// padding of Y, U, V planes (xpad = ypad)
+    /// padding of Y, U, V planes; an entry p means xpad = ypad = p, except that p = 100 + k means
+    /// (xpad, ypad) = (k, 0) and p = 200 + k means (0, k): horizontal-only / vertical-only padding
     pub pad: (usize, usize, usize),
     pub u8s: bool,
     pub depth: u8,
@@ -122,9 +123,9 @@ pub fn build<T: Pixel>(s: &FrameSpec, rng: &mut Rng) -> Frame<T> {
     let maxv: u64 = if s.u8s { 255.min((1u64 << s.depth) - 1) } else { (1u64 << s.depth) - 1 };
     let mut f: Frame<T> = Frame {
         planes: [
-            Plane::new(s.w, s.h, 0, 0, s.pad.0, s.pad.0),
-            Plane::new(s.cu.0, s.cu.1, s.du.0, s.du.1, s.pad.1, s.pad.1),
-            Plane::new(s.cv.0, s.cv.1, s.dv.0, s.dv.1, s.pad.2, s.pad.2),
+            Plane::new(s.w, s.h, 0, 0, xypad(s.pad.0).0, xypad(s.pad.0).1),
+            Plane::new(s.cu.0, s.cu.1, s.du.0, s.du.1, xypad(s.pad.1).0, xypad(s.pad.1).1),
+            Plane::new(s.cv.0, s.cv.1, s.dv.0, s.dv.1, xypad(s.pad.2).0, xypad(s.pad.2).1),
         ],
     };
     // cheap deterministic fill of the whole buffer (visible area and padding) with legal codes
@@ -139,7 +140,18 @@ pub fn build<T: Pixel>(s: &FrameSpec, rng: &mut Rng) -> Frame<T> {
     f
 }
 
-pub const PADS: [(usize, usize, usize); 8] = [(0, 0, 0), (1, 1, 1), (7, 7, 7), (17, 17, 17), (0, 0, 17), (0, 17, 0), (17, 0, 0), (1, 7, 0)];
+pub const PADS: [(usize, usize, usize); 8] = [(0, 0, 0), (1, 1, 1), (116, 116, 116), (17, 17, 17), (0, 0, 17), (0, 17, 0), (203, 0, 107), (1, 7, 0)];
+
+/// decode a padding entry into (xpad, ypad)
+pub fn xypad(p: usize) -> (usize, usize) {
+    if p >= 200 {
+        (0, p - 200)
+    } else if p >= 100 {
+        (p - 100, 0)
+    } else {
+        (p, p)
+    }
+}
 pub const TYPES: [(bool, u8); 4] = [(true, 8), (false, 8), (false, 10), (false, 16)];
 
 fn chroma_candidates(luma: usize, s: usize, full: bool) -> Vec<usize> {
